@@ -131,7 +131,10 @@ class Decider:
                 return frozenset(ListVal(c) for c in itertools.product(*parts_))
         if isinstance(e, ast.Call) and isinstance(e.func, ast.Attribute) and e.func.attr == "join" and len(e.args) == 1 and not e.keywords:
             seps = self.ev(fi, e.func.value, env, benv, aliases, depth)
-            lists = self.ev(fi, e.args[0], env, benv, aliases, depth)
+            arg0 = e.args[0]
+            if isinstance(arg0, ast.Tuple) and isinstance(arg0.ctx, ast.Load):
+                arg0 = ast.copy_location(ast.List(elts=arg0.elts, ctx=ast.Load()), arg0)  # "".join((a, b)) == "".join([a, b])
+            lists = self.ev(fi, arg0, env, benv, aliases, depth)
             if all(type(sp) is str for sp in seps) and all(isinstance(lv, ListVal) for lv in lists) and len(seps) * len(lists) <= 16:
                 out_ = set()
                 for sp in seps:
